@@ -108,6 +108,9 @@ func c03GenTx(r *rng, st *stats, o genOpts, risky string) GTx {
 		p := GPosting{Account: genAccount(r, o), Indent: ind, Sep: sep, Status: pickW(r, []string{"", "*", "!"}, []int{85, 10, 5}), Virtual: pickW(r, []int{0, 1, 2}, []int{80, 10, 10})}
 		if r.chance(80) {
 			sym := pick(r, append(append([]string{}, gSymsR...), "$", "€", "", "apples"))
+			if o.Quoted && r.chance(12) {
+				sym = pick(r, []string{"A B", "my fund", "X1"})
+			}
 			mant, dec := int64(r.rangeInt(-200000, 200000)), pickW(r, []int{2, 0, 1, 4}, []int{60, 20, 10, 10})
 			if r.chance(8) {
 				mant, dec = int64(r.rangeInt(-999, 999)), 3 // 0.125, -0.500: three decimals under a zero integer part
